@@ -1,5 +1,182 @@
 import Sentinel.Drv.Common
-/-! Driver for C17 (stub: replaced by the property's real driver) -/
+import Sentinel.Model.MetricLog
+/-! Driver for C17: `model` = byte-level writer / searcher / reader (`Sentinel.MetricLog`),
+    `spec` = the written items still inside the retained files, filtered by the query (L0 reference),
+    with the regions of the known findings marked `?known:<key>:<claimed>`. -/
 namespace Sentinel.Drv.C17
-def run (_mode : String) : IO Unit := IO.eprintln "C17: driver not implemented"
+open Sentinel.MetricLog Sentinel.Drv
+
+structure St where
+  now : Nat := 0
+  w : Option Writer := none
+  closed : Bool := false                 -- a cut happened: the writer is dead
+  origData : Bytes := []                 -- content of the last data / idx file when the writer died
+  origIdx : Bytes := []
+  cutD : Option Nat := none
+  cutI : Option Nat := none
+  caches : List (String × Cache) := []
+
+def strBytes (s : String) : Bytes := s.toUTF8.toList.map (·.toNat)
+
+def bytesStr (bs : Bytes) : String :=
+  match String.fromUTF8? ⟨(bs.map UInt8.ofNat).toArray⟩ with
+  | some s => s
+  | none => "?"
+
+def parseItem? (tok : String) : Option Item :=
+  match tok.splitOn ":" with
+  | [r, p, b, c, e, rt, oc, cc, cl] =>
+    match p.toNat?, b.toNat?, c.toNat?, e.toNat?, rt.toNat?, oc.toNat?, cc.toNat?, cl.toInt? with
+    | some p, some b, some c, some e, some rt, some oc, some cc, some cl =>
+      some { ts := 0, res := strBytes r, pass := p, block := b, complete := c, error := e, rt := rt, occ := oc, conc := cc, cls := cl }
+    | _, _, _, _, _, _, _, _ => none
+  | _ => none
+
+def showItem (it : Item) : String :=
+  s!"{it.ts}:{bytesStr it.res}:{it.pass}:{it.block}:{it.complete}:{it.error}:{it.rt}:{it.occ}:{it.conc}:{it.cls}"
+
+def showItems (xs : List Item) : String := showList (xs.map showItem)
+
+def fileName (n : Name) : String :=
+  "app-metrics.log." ++ bytesStr (dateStr n.1) ++ (if n.2 = 0 then "" else "." ++ toString n.2)
+
+def getCache (s : St) (sid : String) : Cache :=
+  match s.caches.find? (·.1 == sid) with
+  | some (_, c) => c
+  | none => {}
+
+def setCache (s : St) (sid : String) (c : Cache) : St :=
+  { s with caches := (sid, c) :: s.caches.filter (·.1 != sid) }
+
+/-! ### spec side -/
+
+structure View where
+  perFile : List (List Item)            -- the items the property speaks about, per retained file
+  torn : Option Item                    -- a fragment that parses to an item that was never written
+  ents : List (Nat × Nat)               -- index entries wholly before the cut, all files
+  leading : List Item                   -- items in front of the first such entry
+  created : Nat
+
+def lineOffsets : List Item → Nat → List (Nat × Item)
+  | [], _ => []
+  | it :: r, o => (o, it) :: lineOffsets r (o + (fat it).length + 1)
+
+def leadingOf : List (List Item × List (Nat × Nat)) → List Item
+  | [] => []
+  | (its, []) :: r => its ++ leadingOf r
+  | (its, (_, off) :: _) :: _ => ((lineOffsets its 0).filter fun p => decide (p.1 < off)).map (·.2)
+
+def view (s : St) (w : Writer) : View :=
+  let n := w.files.length
+  let files := w.files.zipIdx.map fun (f, i) =>
+    if i + 1 = n then
+      let (its, torn) := match s.cutD with
+        | none => (f.lines, none)
+        | some k =>
+          let a := wholeLines f.lines k
+          match tornItem f.lines k, parseLine (dropCR (fragment f.lines k)) with
+          | some orig, some it' => if it' = orig then (a ++ [orig], none) else (a, some it')
+          | _, _ => (a, none)
+      let ents := match s.cutI with
+        | none => f.ents
+        | some k => f.ents.take (k / 16)
+      (its, torn, ents)
+    else (f.lines, none, f.ents)
+  { perFile := files.map (·.1),
+    torn := files.findSome? (·.2.1),
+    ents := files.flatMap (·.2.2),
+    leading := leadingOf (files.map fun x => (x.1, x.2.2)),
+    created := w.createdSec }
+
+def specAnswer (s : St) (w : Writer) (c : Cache) (beginMs : Nat) (value : View → List Item) (hit : Item → Bool) : String :=
+  let v := view s w
+  let has := v.ents.any fun e => decide (e.1 ≥ beginMs / 1000)
+  let claimed := showItems (if has then value v else [])
+  if cacheOk w.files c beginMs then s!"?known:metriclog-cache-skip:{claimed}"
+  else if !has then claimed
+  else match v.leading.find? hit with
+    | some it =>
+      if it.ts / 1000 = v.created then s!"?known:metriclog-first-second:{claimed}"
+      else s!"?known:metriclog-orphan-head:{claimed}"
+    | none => match v.torn with
+      | some it => if hit it then s!"?known:metriclog-torn-line:{claimed}" else claimed
+      | none => claimed
+
+/-! ### the interpreter -/
+
+def applyCuts (s : St) (w : Writer) : Writer :=
+  let fs := modLast w.files fun f => { f with data := s.origData, idx := s.origIdx }
+  let fs := match s.cutD with | some k => cutData fs k | none => fs
+  let fs := match s.cutI with | some k => cutIdx fs k | none => fs
+  { w with files := fs }
+
+def insertSorted (x : String × Nat) : List (String × Nat) → List (String × Nat)
+  | [] => [x]
+  | y :: r => if x.1 < y.1 then x :: y :: r else y :: insertSorted x r
+
+def step (spec : Bool) (s : St) (ts : List String) (_ : String) : St × Option String :=
+  match ts with
+  | ["clock", t] => match t.toNat? with
+      | some t => ({ s with now := t }, none)
+      | none => (s, some "bad-op")
+  | ["log.end"] => ({ now := s.now }, none)
+  | ["log.new", a, b] => match a.toNat?, b.toNat? with
+      | some a, some b =>
+        if a = 0 ∨ b = 0 then ({ s with w := none }, some "err")
+        else ({ now := s.now, w := some (Writer.new s.now a b) }, some "ok")
+      | _, _ => (s, some "bad-op")
+  | "log.write" :: t :: n :: items => match s.w, t.toNat?, n.toNat?, items.mapM parseItem? with
+      | some w, some t, some n, some items =>
+        if n ≠ items.length then (s, some "bad-op")
+        else if s.closed then (s, some "closed")
+        else if n = 0 then (s, none)
+        else if t = 0 then (s, some "err")
+        else ({ s with w := some (w.write t items) }, none)
+      | _, _, _, _ => (s, some "bad-op")
+  | ["log.cut", which, k] => match s.w, k.toNat? with
+      | some w, some k =>
+        let s := if s.closed then s else
+          match w.files.getLast? with
+          | some f => { s with closed := true, origData := f.data, origIdx := f.idx }
+          | none => s
+        if which == "data" then
+          let s := { s with cutD := some k }
+          ({ s with w := some (applyCuts s w) }, none)
+        else if which == "idx" then
+          let s := { s with cutI := some k }
+          ({ s with w := some (applyCuts s w) }, none)
+        else (s, some "bad-op")
+      | _, _ => (s, some "bad-op")
+  | ["log.files"] => match s.w with
+      | some w =>
+        let xs := w.files.foldl (fun acc f =>
+          insertSorted (fileName f.name, f.data.length) (insertSorted (fileName f.name ++ ".idx", f.idx.length) acc)) []
+        (s, some (showList (xs.map fun p => s!"{p.1}:{p.2}")))
+      | none => (s, some "bad-op")
+  | ["log.find", sid, b, e, r] => match s.w, b.toNat?, e.toNat? with
+      | some w, some b, some e =>
+        let res := if r == "*" then [] else strBytes r
+        let c := getCache s sid
+        let (c', xs) := find w.files c b e res
+        let s' := setCache s sid c'
+        if spec then
+          (s', some (specAnswer s w c b (fun v => specFind v.perFile.flatten b e res)
+                      (fun it => inRange b e it && resMatch res it)))
+        else (s', some (showItems xs))
+      | _, _, _ => (s, some "bad-op")
+  | ["log.from", sid, b, m] => match s.w, b.toNat?, m.toNat? with
+      | some w, some b, some m =>
+        let c := getCache s sid
+        let (c', xs) := findFrom w.files c b m
+        let s' := setCache s sid c'
+        if spec then
+          (s', some (specAnswer s w c b (fun v => specFrom v.perFile b m)
+                      (fun it => decide (b / 1000 ≤ it.ts / 1000))))
+        else (s', some (showItems xs))
+      | _, _, _ => (s, some "bad-op")
+  | _ => (s, some "bad-op")
+
+def run (mode : String) : IO Unit :=
+  loop ({} : St) (step (mode == "spec"))
+
 end Sentinel.Drv.C17
